@@ -90,12 +90,14 @@ class C12(GProp):
                     return [((ri,), 'invocation %d of %s on %s: the stabilising parse succeeded but the returned lexer still carries the recovering state'
                              % (ri, sexp.dump(c['g'])[:90], ' '.join(c['text'])))]
         for ri, (ref, run) in enumerate(zip(refs, runs), 1):
-            if ref[0] == 'notcovered':
-                return fails
             kind, v, lx = run_result(run)
             where = 'invocation %d of %s on %s' % (ri, sexp.dump(c['g'])[:90], ' '.join(c['text']))
-            if kind in ('panic', 'diverged'):
+            if kind == 'panic' or (kind == 'diverged' and ref[0] != 'notcovered'):
+                # (a divergence where the reference does not apply is left to the model comparison: the recorded stale-flag
+                # finding can make a repeated recovering parser spin, and the model diverges with the code there)
                 fails.append(((ri,), '%s: %s' % (where, kind))); return self.tag_known(fails)
+            if ref[0] == 'notcovered':
+                return fails
             if ref[0] == 'fail':
                 if kind != 'err':
                     fails.append(((ri,), '%s: succeeded with %s, reference fails (%s)' % (where, sexp.dump(v), ref[1]))); return self.tag_known(fails)
